@@ -314,6 +314,19 @@ def ret_is_ok(rv):
 
 def explore(env, file_hint, name, sig=None, inline=None, pure=None, enums=None, models=None, args=None,
             loop_bound=2):
+    key = None
+    if args is None and models is None:
+        key = (file_hint, name, sig, json.dumps(sorted((inline or {}).keys())), json.dumps(sorted(pure or [])), loop_bound)
+        cache = env.__dict__.setdefault("_explore_cache", {})
+        if key in cache:
+            return cache[key]
+    out = _explore(env, file_hint, name, sig, inline, pure, enums, models, args, loop_bound)
+    if key is not None:
+        env._explore_cache[key] = out
+    return out
+
+
+def _explore(env, file_hint, name, sig, inline, pure, enums, models, args, loop_bound):
     ctx = mirsmt.Ctx()
     f = env.mir.find(file_hint, name, sig)
     mdl = dict(COMMON_MODELS)
@@ -639,7 +652,8 @@ def c04_own_delete(env, ob):
     inline = {r"^Snapshot::is_committed_before_snapshot$": (COORD, "is_committed_before_snapshot", None),
               r"^Snapshot::xid$": (COORD, "xid", r"&Snapshot\) -> u64"),
               r"TupleLayout::is_valid_for_snapshot$": ("storage/tuple.rs", "is_valid_for_snapshot", None)}
-    ctx, f, args, res = explore(env, "storage/tuple.rs", "parse_for_snapshot", inline=inline, loop_bound=1)
+    ctx, f, args, res = explore(env, "storage/tuple.rs", "parse_for_snapshot", inline=inline, loop_bound=1,
+                                pure=[r"DeltaHeader::xmin$", r"DeltaHeader::version$"])
     lay_names = env.struct_fields("storage/tuple.rs", "TupleLayout")
     ixl = {n: str(i) for i, n in enumerate(lay_names)}
     sn = env.struct_fields(COORD, "Snapshot")
@@ -972,6 +986,95 @@ def c04_dml_stamps(env, ob):
             return None
         agg = merge(agg, trace_obligation(env, ob, ctx, res, bad, "stamp argument is not the executing transaction's id"))
     return agg
+
+
+@obligation(id="C18.delta_step_stamps", also="C04", funcs="TupleReader::parse_for_snapshot",
+            bounds="every path of parse_for_snapshot that steps to exactly one older version (loop unrolled once); "
+                   "decoding of the delta payload uninterpreted")
+def c18_delta_step(env, ob):
+    """Stepping from version v to the next older version v' of the chain: v'.xmax = v.xmin (the older version ends where
+    the newer one begins), v'.xmin = the delta header's xmin, and v' is returned only if its creator committed before
+    the reader's snapshot."""
+    inline = {r"^Snapshot::is_committed_before_snapshot$": (COORD, "is_committed_before_snapshot", None),
+              r"^Snapshot::xid$": (COORD, "xid", r"&Snapshot\) -> u64"),
+              r"TupleLayout::is_valid_for_snapshot$": ("storage/tuple.rs", "is_valid_for_snapshot", None)}
+    ctx, f, args, res = explore(env, "storage/tuple.rs", "parse_for_snapshot", inline=inline, loop_bound=1,
+                                pure=[r"DeltaHeader::xmin$", r"DeltaHeader::version$"])
+    lay = env.struct_fields("storage/tuple.rs", "TupleLayout")
+    ix = {n: str(i) for i, n in enumerate(lay)}
+    cands, wit = [], []
+    for path, rv in res:
+        if path.cut or path.panics or not isinstance(rv, Agg):
+            continue
+        if mirsmt.const_of(rv.get_disc().term) != 0:
+            continue
+        dh = [e for e in path.events if callee_is(e, r"DeltaHeader::read_from$")]
+        dx = [e for e in path.events if callee_is(e, r"DeltaHeader::xmin$") and isinstance(e["ret"], Leaf)]
+        pl = [e for e in path.events if callee_is(e, r"parse_last_version$")]
+        if len(dh) != 1 or not dx or not pl:
+            continue
+        opt = rv.variants["Ok"].val.fields["0"].val
+        if not isinstance(opt, Agg) or mirsmt.const_of(opt.get_disc().term) != 1:
+            continue
+        out = opt.variants["Some"].val.fields["0"].val
+        if not isinstance(out, Agg):
+            continue
+        base = pl[0]["ret"].name + "@Ok.0"
+        x0 = ctx.smtname(f"{base}.{ix['version_xmin']}")
+        if x0 not in ctx.decls:
+            continue
+        nx = out.fields.get(ix["version_xmin"])
+        nm = out.fields.get(ix["version_xmax"])
+        if nx is None or nm is None or not isinstance(nx.val, Leaf) or not isinstance(nm.val, Agg):
+            cands.append(conj(path.pc))
+            continue
+        md = nm.val.get_disc().term
+        mv = nm.val.variants["Some"].val.fields["0"].val.term if "Some" in nm.val.variants else None
+        law = conj([f"(= {nx.val.term} {dx[-1]['ret'].term})", f"(= {md} {bvconst(1, 64)})"] + ([f"(= {mv} {x0})"] if mv else ["false"]))
+        wit.append(conj(path.pc))
+        cands.append(conj(path.pc + [f"(not {law})"]))
+    if not wit:
+        return result(ob, "inconclusive", reason="vacuity: no path returns an older version after one delta step", paths=len(res))
+    chk = env.check(ctx, [disj(cands), disj(wit)])
+    kw = dict(paths=len(res), queries=2)
+    if chk[1]["verdict"] != "sat":
+        return result(ob, "inconclusive", reason="vacuity: " + chk[1]["verdict"], **kw)
+    if chk[0]["verdict"] == "unsat":
+        return result(ob, "discharged", **kw)
+    if chk[0]["verdict"] == "sat":
+        return result(ob, "violated", failed=["older_version_wrongly_stamped"], cex={"what": "after one delta step the returned layout's xmin/xmax are not (delta.xmin, Some(newer.xmin))"}, **kw)
+    return result(ob, "inconclusive", reason=chk[0]["verdict"], **kw)
+
+
+@obligation(id="C13.vacuum_order", funcs="Database::vacuum::{closure#0}",
+            bounds="every path of the vacuum worker closure; callees uninterpreted")
+def c13_vacuum_order(env, ob):
+    """The horizon is read before the vacuum transaction begins, the aborted bitmap is cleared exactly up to that horizon,
+    and the checkpoint (flush) happens after the vacuum transaction committed."""
+    ctx, f, args, res = explore(env, "src/lib.rs", "vacuum::{closure#0}", pure=[r"get_last_committed$"])
+
+    def bad(path, rv):
+        if path.panics or rv is None:
+            return None
+        okc = ret_is_ok(rv)
+        hz = idx(path, r"get_last_committed$")
+        bg = idx(path, r"begin_transaction$")
+        cl = idx(path, r"clear_aborted_up_to$")
+        cm = idx(path, r"TransactionContext::commit_transaction$")
+        fl = [i for i in idx(path, r"(Pager::flush|<Pager as std::io::Write>::flush)$")]
+        if not hz or not bg or hz[0] > bg[0]:
+            return ("horizon_read_after_vacuum_transaction_began", okc)
+        if cl:
+            a = path.events[cl[-1]]["args"][-1]
+            h = path.events[hz[0]]["ret"]
+            if not (isinstance(a, Leaf) and isinstance(h, Leaf) and a.term == h.term):
+                return ("aborted_bitmap_cleared_beyond_horizon", okc)
+        if not cm:
+            return ("vacuum_ok_without_commit", okc)
+        if not fl or fl[-1] < cm[-1]:
+            return ("vacuum_ok_without_checkpoint_after_commit", okc)
+        return None
+    return trace_obligation(env, ob, ctx, res, bad, "vacuum ordering")
 
 
 # ---------------------------------------------------------------------------------------------------------------------
